@@ -161,6 +161,26 @@ theorem loop_asFound_unbounded (n : Nat) (mf : Option Nat) :
   have := SV.Proofs.SM.asFound_runs_as_long_as_scripted n 0 { ctl := { maxFailures := mf } } ⟨rfl, rfl, rfl, rfl⟩
   simpa using this
 
+/-- **max-failures in the stateful phase.**  With `max_failures = mx ≥ 1`, for every behaviour of Hypothesis, the API and
+    the checks over any number of iterations (no `teardown` metric fault): at most `mx` scenarios are reported as FAILED.
+    (Each failed scenario counted at least one new failure before the limit was reached; once it is reached no step runs.)
+    Errored scenarios are not capped by the code — an error ends the loop instead — see `loop_asFound_unbounded` for
+    what that meant before the Flaky arm was repaired. -/
+theorem failed_scenarios_capped (mx : Nat) (v : SV.Model.SM.Variant) (m : MSt) (runs : List Run)
+    (h0 : m.ctl = { maxFailures := some mx }) (hs : m.stepStatus = none) (ho : m.out = []) (hmx : 0 < mx)
+    (ht : NoTeardownFault runs) :
+    failedScenarios (thread v 0 m runs).out ≤ mx := by
+  have hc : SV.Proofs.SM.Capped mx m := by
+    refine ⟨⟨by rw [h0], fun _ => by rw [h0]; exact hmx⟩, hs, by rw [ho, h0]; simp [failedScenarios], by rw [ho]; simp [failedScenarios]⟩
+  exact (SV.Proofs.SM.thread_capped mx v 0 m runs ht hc).2.2.2
+
+/-- non-vacuity: limit 1, two scenarios each failing a check — the second one never gets to its call -/
+example : failedScenarios (thread .repaired 0 { ctl := { maxFailures := some 1 } }
+      [⟨[⟨false, [⟨1, false, .responds [.fail [7]]⟩], false⟩, ⟨false, [⟨2, false, .responds [.fail [8]]⟩], false⟩], .flaky, false⟩]).out = 1 ∧
+    (thread .repaired 0 { ctl := { maxFailures := some 1 } }
+      [⟨[⟨false, [⟨1, false, .responds [.fail [7]]⟩], false⟩, ⟨false, [⟨2, false, .responds [.fail [8]]⟩], false⟩], .flaky, false⟩]).calls = 1 := by
+  decide
+
 /-- the same environment under the repaired arm: one iteration -/
 theorem loop_repaired_stops (n : Nat) : suitesRun .repaired 0 {} (List.replicate (n + 1) flakyErrorRun) = 1 := by
   have := (SV.Proofs.SM.flakyErrorRun_repaired 0 {} ⟨rfl, rfl, rfl, rfl⟩).1
